@@ -1,6 +1,321 @@
-import Flatland.C17
-import Flatland.Spec.C17
+/-
+C17 — properties is a layered mapping: inherited downward, never leaking upward.
+
+Theorems about model A (`Flatland/C17.lean`) against spec B (`Flatland/Spec/C17.lean`).
+-/
+import Proofs.Lemmas.C17Layer
 namespace Flatland.C17.Proofs
 open Flatland.C17 Flatland.C17.Spec
+
+/-! ## no upward leak (non-interference) -/
+
+/-- the classes a view inherits properties from (its MRO; for an instance, that of its class) -/
+def viewMro (σ : State) : View → List ClassId
+  | .cls w => σ.mroOf w
+  | .inst i => match σ.insts[i]? with | some x => σ.mroOf x.cls | none => []
+
+/-- `W` inherits from `V`: `V` is `W` itself or a class in the MRO of `W` (of `W`'s class) -/
+def Inherits (σ : State) (W V : View) : Prop :=
+  match V with
+  | .cls v => v ∈ viewMro σ W
+  | .inst i => W = .inst i
+
+theorem tGet_setFrame (σ : State) (hs : NoShared σ) (v w : ClassId) (d d' : DescId) (f : Frame)
+    (h : v ∉ σ.mroOf w) (k : Key) :
+    tGet (σ.setFrame (σ.baseKey v d) f) w d' k = tGet σ w d' k := by
+  unfold tGet tFrames
+  rw [mroOf_setFrame, walk_setFrame]
+  intro c hc
+  exact baseKey_ne σ hs c v d d' (fun e => h (e ▸ hc))
+
+theorem visible_setFrame (σ : State) (hs : NoShared σ) (v : ClassId) (d : DescId) (f : Frame)
+    (W : View) (h : v ∉ viewMro σ W) :
+    visible (σ.setFrame (σ.baseKey v d) f) W = visible σ W := by
+  funext k
+  cases W with
+  | cls w =>
+    simp only [visible, descOf_setFrame]
+    split
+    · rfl
+    · rw [tGet_setFrame σ hs v w d _ f h]
+  | inst i =>
+    simp only [visible, insts_setFrame, descOf_setFrame]
+    split
+    · rfl
+    · rename_i x hx
+      split
+      · rfl
+      · split
+        · rfl
+        · simp only [viewMro, hx] at h
+          simp only [iGet, tGet_setFrame σ hs v x.cls d _ f h]
+
+theorem tWrite_state (σ : State) (v : ClassId) (d : DescId) (o : Op) :
+    (tWrite σ v d o).1 = σ ∨ ∃ f, (tWrite σ v d o).1 = σ.setFrame (σ.baseKey v d) f := by
+  cases o <;> simp only [tWrite, State.writeBase] <;> first
+    | (left; trivial)
+    | (right; exact ⟨_, rfl⟩)
+    | (split <;> first | (left; trivial) | (right; exact ⟨_, rfl⟩))
+
+theorem classOp_state (σ : State) (v : ClassId) (o : Op) :
+    (classOp σ v o).1 = σ ∨ ∃ d f, (classOp σ v o).1 = σ.setFrame (σ.baseKey v d) f := by
+  unfold classOp
+  split
+  · split
+    · left; rfl
+    · rename_i d _
+      split
+      · left; rfl
+      · rcases tWrite_state σ v d o with h | ⟨f, h⟩
+        · left; exact h
+        · right; exact ⟨d, f, h⟩
+  · left; rfl
+
+/-- an operation through an instance view changes that instance's `__dict__` entry only -/
+theorem instOp_state (σ : State) (i : InstId) (o : Op) :
+    (instOp σ i o).1 = σ ∨ ∃ x, (instOp σ i o).1 = setInst σ i x := by
+  unfold instOp
+  split
+  · left; rfl
+  · split
+    · right; exact ⟨_, rfl⟩
+    · split
+      · left; rfl
+      · split
+        · left; rfl
+        · right; exact ⟨_, rfl⟩
+
+theorem visible_setInst (σ : State) (i : InstId) (x : Inst) (W : View) (h : W ≠ .inst i) :
+    visible (setInst σ i x) W = visible σ W := by
+  funext k
+  have hd : ∀ c, (setInst σ i x).descOf c = σ.descOf c := descOf_congr rfl
+  cases W with
+  | cls w => simp only [visible, hd, tGet_congr (σ := σ) (σ' := setInst σ i x) rfl rfl]
+  | inst j =>
+    have hj : i ≠ j := fun e => h (e ▸ rfl)
+    simp only [visible, hd, iGet_congr (σ := σ) (σ' := setInst σ i x) rfl rfl]
+    simp only [setInst, List.getElem?_set_ne hj]
+
+/-- **No upward leak.**  An operation made through view `V` never changes what a view `W`
+    that does not inherit from `V` shows: parents, siblings, cousins, their instances, other
+    instances of the same class, and (for an operation through an instance) every other view. -/
+theorem no_upward_leak (σ : State) (hs : NoShared σ) (V W : View) (o : Op)
+    (h : ¬ Inherits σ W V) : visible (step σ (.op V o)).1 W = visible σ W := by
+  cases V with
+  | cls v =>
+    simp only [step]
+    rcases classOp_state σ v o with e | ⟨d, f, e⟩
+    · rw [e]
+    · rw [e]; exact visible_setFrame σ hs v d f W h
+  | inst i =>
+    simp only [step]
+    rcases instOp_state σ i o with e | ⟨x, e⟩
+    · rw [e]
+    · rw [e]; exact visible_setInst σ i x W h
+
+/-! ## reading is the overlay of the chain's layers -/
+
+/-- every class of the chain of `c` (MRO up to the nearest fresh start) resolves `properties`
+    to the descriptor `c` resolves it to.  Always true with single inheritance
+    (`coherent_of_single`); can fail for `class X(A, B)` — see `read_is_overlay_fails_mi`. -/
+def Coherent (σ : State) (c : ClassId) : Prop :=
+  ∃ d, σ.descOf c = some d ∧
+    ∀ x ∈ cut (fun x => (σ.ownOf x).isSome) (σ.mroOf c), σ.descOf x = some d
+
+theorem descOf_of_head (σ : State) (x : ClassId) (tail : List ClassId) (d : DescId)
+    (hm : σ.mroOf x = x :: tail) (ho : σ.ownOf x = some d) : σ.descOf x = some d := by
+  simp [State.descOf, hm, ho]
+
+theorem walk_eq_chain (σ : State) (hwf : WF σ) (d : DescId) (l : List ClassId)
+    (hl : ∀ x ∈ l, x < σ.classes.length)
+    (h : ∀ x ∈ cut (fun x => (σ.ownOf x).isSome) l, σ.descOf x = some d) :
+    overlayAll ((σ.walk d l).map frameLayer)
+      = overlayAll ((cut (fun x => (σ.ownOf x).isSome) l).map (absLayer σ)) := by
+  induction l with
+  | nil => rfl
+  | cons x rest ih =>
+    have hx : x < σ.classes.length := hl x (List.mem_cons_self ..)
+    obtain ⟨tail, hm⟩ := hwf.mro_head x hx
+    simp only [State.walk, cut]
+    by_cases ho : σ.owns x d = true
+    · have ho' : σ.ownOf x = some d := by simpa [State.owns] using ho
+      simp only [ho, if_true, ho', Option.isSome_some, List.map_cons, List.map_nil]
+      have : absLayer σ x = frameLayer (σ.frameD (.init d)) := by
+        simp [absLayer, descOf_of_head σ x tail d hm ho', State.baseFrame, State.baseKey, ho]
+      rw [this]
+    · have hdx : σ.descOf x = some d := by
+        apply h; simp only [cut]; split <;> simp
+      have hnone : σ.ownOf x = none := by
+        cases hox : σ.ownOf x with
+        | none => rfl
+        | some d' =>
+          have := descOf_of_head σ x tail d' hm hox
+          rw [hdx] at this
+          simp only [Option.some.injEq] at this
+          subst this
+          simp [State.owns, hox] at ho
+      have hrest := ih (fun y hy => hl y (List.mem_cons_of_mem _ hy)) (fun y hy => by
+        apply h; simp only [cut, hnone, Option.isSome_none]; exact List.mem_cons_of_mem _ hy)
+      simp only [ho, hnone, Option.isSome_none, Bool.false_eq_true, if_false, List.map_cons, overlayAll]
+      have hl' : absLayer σ x = frameLayer (σ.frameD (.cls d x)) := by
+        simp [absLayer, hdx, State.baseFrame, State.baseKey, ho]
+      rw [hl', ← hrest]
+      cases hg : AList.get? σ.frames (.cls d x) with
+      | none =>
+        funext k
+        simp [State.frameD, hg, overlay, frameLayer]
+      | some f =>
+        simp [State.frameD, hg, overlayAll]
+
+/-- **Reading is the overlay.**  What a class view shows is the overlay, from the most basic
+    class of its chain down to the class itself, of the layers held for those classes. -/
+theorem read_is_overlay_class (σ : State) (hwf : WF σ) (c : ClassId) (hc : Coherent σ c) :
+    visible σ (.cls c) = Spec.visible (abs σ) (.cls c) := by
+  obtain ⟨d, hd, hall⟩ := hc
+  funext k
+  simp only [visible, hd, tGet, tFrames, lookupFrames_overlay, Spec.visible, classVisible, chain, abs]
+  rw [walk_eq_chain σ hwf d (σ.mroOf c) (fun x hx => hwf.mro_lt c x hx) hall]
+
+/-- … and an instance view adds the instance's own layer on top; an instance that was assigned
+    a plain mapping shows that mapping. -/
+theorem read_is_overlay_inst (σ : State) (hwf : WF σ) (i : InstId) (x : Inst)
+    (hx : σ.insts[i]? = some x) (hc : Coherent σ x.cls) :
+    visible σ (.inst i) = Spec.visible (abs σ) (.inst i) := by
+  have hcls := read_is_overlay_class σ hwf x.cls hc
+  obtain ⟨d, hd, _⟩ := hc
+  funext k
+  have hcls' := congrFun hcls k
+  simp only [visible, hd, Spec.visible] at hcls'
+  simp only [visible, hx, Spec.visible, abs, List.getElem?_map, Option.map_some, absInst]
+  cases hloc : x.loc with
+  | plain m => rfl
+  | storage f =>
+    simp only [hd, iGet, overlay, frameLayer]
+    cases hg : AList.get? f k with
+    | none => simpa [abs] using hcls'
+    | some s => cases s <;> simp [Except.toOption]
+
+/-! ## the mutating methods have `dict` semantics on the visible mapping -/
+
+/-- what class `v` inherits: everything its walk finds above its own frame -/
+def belowC (σ : State) (v : ClassId) (d : DescId) : Mapping :=
+  if σ.owns v d then Mapping.empty
+  else fun k => (lookupFrames (σ.walk d (σ.mroOf v).tail) k).toOption
+
+theorem frameLayer_nil : frameLayer [] = Layer.empty := rfl
+
+theorem overlay_empty_layer (below : Mapping) : overlay below Layer.empty = below := by
+  funext k; simp [overlay, Layer.empty]
+
+theorem tGet_decomp (σ : State) (v : ClassId) (d : DescId) (tail : List ClassId)
+    (hm : σ.mroOf v = v :: tail) (k : Key) :
+    (tGet σ v d k).toOption = overlay (belowC σ v d) (frameLayer (σ.baseFrame v d)) k := by
+  simp only [tGet, tFrames, hm, State.walk, belowC, State.baseFrame, State.baseKey, List.tail_cons]
+  by_cases ho : σ.owns v d = true
+  · simp only [ho, if_true, lookupFrames_overlay, List.map_cons, List.map_nil, overlayAll]
+  · simp only [ho, Bool.false_eq_true, if_false]
+    cases hg : AList.get? σ.frames (.cls d v) with
+    | none =>
+      simp only [State.frameD, hg, Option.getD_none, frameLayer_nil, overlay_empty_layer]
+    | some f =>
+      simp only [State.frameD, hg, Option.getD_some, lookupFrames_overlay, List.map_cons, overlayAll]
+
+theorem baseFrame_setFrame (σ : State) (v : ClassId) (d : DescId) (f : Frame) :
+    (σ.setFrame (σ.baseKey v d) f).baseFrame v d = f := by
+  simp [State.baseFrame, baseKey_congr (σ := σ) (σ' := σ.setFrame (σ.baseKey v d) f) rfl, frameD_setFrame]
+
+theorem belowC_setFrame (σ : State) (hwf : WF σ) (v : ClassId) (d : DescId) (f : Frame) :
+    belowC (σ.setFrame (σ.baseKey v d) f) v d = belowC σ v d := by
+  simp only [belowC, owns_setFrame, mroOf_setFrame]
+  by_cases ho : σ.owns v d = true
+  · simp [ho]
+  · simp only [ho, Bool.false_eq_true, if_false]
+    funext k
+    rw [walk_setFrame]
+    intro c hc
+    have hnd := hwf.mro_nodup v
+    have hne : c ≠ v := by
+      intro e; subst e
+      cases hmv : σ.mroOf c with
+      | nil => simp [hmv] at hc
+      | cons a tl =>
+        rw [hmv] at hc hnd
+        simp only [List.tail_cons] at hc
+        -- `c` occurs in the tail; it is also the head whenever the class exists
+        by_cases hlt : c < σ.classes.length
+        · obtain ⟨tl', e⟩ := hwf.mro_head c hlt
+          rw [hmv] at e
+          simp only [List.cons.injEq] at e
+          obtain ⟨rfl, rfl⟩ := e
+          exact (List.nodup_cons.1 hnd).1 hc
+        · exact hlt (hwf.mro_lt c c (by rw [hmv]; exact List.mem_cons_of_mem _ hc))
+    unfold State.baseKey
+    simp only [ho, Bool.false_eq_true, if_false]
+    split <;> simp [hne]
+
+theorem except_cases {ε α : Type} (x : Except ε α) : (∃ e, x = .error e) ∨ (∃ a, x = .ok a) := by
+  cases x <;> simp
+
+/-- what `_TypeLookup`'s writing methods leave in the class's own frame, as a layer -/
+theorem tWrite_layer (σ : State) (v : ClassId) (d : DescId) (o : Op) :
+    frameLayer ((tWrite σ v d o).1.baseFrame v d)
+      = applyOp (fun k => (tGet σ v d k).toOption) (frameLayer (σ.baseFrame v d)) o := by
+  cases o <;> simp only [tWrite, applyOp, State.writeBase]
+  case setitem k x => rw [baseFrame_setFrame, frameLayer_set]
+  case delitem k =>
+    rcases except_cases (tGet σ v d k) with ⟨e, hg⟩ | ⟨x, hg⟩
+    · simp [hg, Except.toOption]
+    · simp only [hg, Except.toOption, Option.isSome_some, if_true, baseFrame_setFrame, frameLayer_set]
+  case clear =>
+    rw [baseFrame_setFrame, frameLayer_foldl_deleted]
+    funext k
+    simp only [mem_keys_tItems]
+  case pop k dflt =>
+    rcases except_cases (tGet σ v d k) with ⟨e, hg⟩ | ⟨x, hg⟩
+    · simp [hg, Except.toOption]
+    · simp only [hg, Except.toOption, Option.isSome_some, if_true, baseFrame_setFrame, frameLayer_set]
+  case setdefault k dv =>
+    rcases except_cases (tGet σ v d k) with ⟨e, hg⟩ | ⟨x, hg⟩
+    · simp only [hg, Except.toOption, Option.isSome_none, Bool.false_eq_true, if_false,
+        baseFrame_setFrame, frameLayer_set]
+    · simp [hg, Except.toOption]
+  case update ps => rw [baseFrame_setFrame, frameLayer_update]
+
+theorem belowC_tWrite (σ : State) (hwf : WF σ) (v : ClassId) (d : DescId) (o : Op) :
+    belowC (tWrite σ v d o).1 v d = belowC σ v d := by
+  rcases tWrite_state σ v d o with e | ⟨f, e⟩ <;> rw [e]
+  exact belowC_setFrame σ hwf v d f
+
+theorem tWrite_classes (σ : State) (v : ClassId) (d : DescId) (o : Op) :
+    (tWrite σ v d o).1.classes = σ.classes := by
+  rcases tWrite_state σ v d o with e | ⟨f, e⟩ <;> rw [e]; rfl
+
+/-- **dict semantics, class views.**  After any method `o` called through the view of class
+    `v`, that view shows exactly what a Python dict holding the previously visible mapping would
+    hold after `o`. -/
+theorem dict_semantics_class (σ : State) (hwf : WF σ) (v : ClassId) (hv : v < σ.classes.length)
+    (d : DescId) (hd : σ.descOf v = some d) (o : Op) :
+    visible (step σ (.op (.cls v) o)).1 (.cls v) = dictApply o (visible σ (.cls v)) := by
+  obtain ⟨tail, hm⟩ := hwf.mro_head v hv
+  have hvis : visible σ (.cls v) = overlay (belowC σ v d) (frameLayer (σ.baseFrame v d)) := by
+    funext k; simp only [visible, hd]; exact tGet_decomp σ v d tail hm k
+  simp only [step, classOp, hv, if_true, hd]
+  cases hr : dictLikeRead (tReader σ v d) o with
+  | some r =>
+    simp only
+    cases o <;> simp_all [dictLikeRead, dictApply]
+  | none =>
+    simp only
+    have hcl := tWrite_classes σ v d o
+    have hd' : (tWrite σ v d o).1.descOf v = some d := by rw [descOf_congr hcl]; exact hd
+    have hm' : (tWrite σ v d o).1.mroOf v = v :: tail := by rw [mroOf_congr hcl]; exact hm
+    have : visible (tWrite σ v d o).1 (.cls v)
+        = overlay (belowC σ v d) (applyOp (visible σ (.cls v)) (frameLayer (σ.baseFrame v d)) o) := by
+      funext k
+      simp only [visible, hd']
+      rw [tGet_decomp _ v d tail hm' k, belowC_tWrite σ hwf, tWrite_layer]
+      congr 2
+      funext k'; simp only [visible, hd]
+    rw [this, hvis, overlay_applyOp]
 
 end Flatland.C17.Proofs
